@@ -70,7 +70,9 @@ def modelPrims (tzAware : Bool) : IvPrims where
   dateCtor y l := if y = (Gen.dummyYear : Int) then (intsToNats l).bind fun e => checkEp .date e else .unsupported
   datetimeCtor l := (intsToNats l).bind fun e => checkEp .datetime (padZeros 7 e)
   exportDt e := e.map Int.ofNat
-  field name e := if name == "month" then (e.getD 0 0 : Nat) else if name == "day" then (e.getD 1 0 : Nat) else 0
+  field name e :=
+    if name == "month" then (e.getD 0 0 : Nat) else if name == "day" then (e.getD 1 0 : Nat)
+    else if name == "year" then (Gen.dummyYear : Nat) else 0      -- only dates (dummy year) have their fields read
   strEp k e := render k e
   strInt i := natStr i.toNat
   sorted := sortR
@@ -161,16 +163,16 @@ theorem search_findMatch (m : List Char → Option Match) (s : List Char) :
   simpa [search] using this
 
 /-- the translated `_match_pattern` is the model's search-and-remove -/
-theorem match_pattern_eq (c : Bool) (s : List Char) (re : Re) (msg : Option Unit) :
+theorem match_pattern_eq (c : Bool) (s : List Char) (re : Re) (msg : Option (List Char)) :
     match_pattern (modelPrims c) s re msg =
       match search (matcher re) s with
       | some (s', g) => .ok (s', some g)
-      | none => if msg.isSome then .err .value else .ok (s, none) := by
+      | none => if (match msg with | some v => !v.isEmpty | none => false) then .err .value else .ok (s, none) := by
   rw [search_findMatch]
   unfold match_pattern
   simp only [modelPrims]
   cases findMatch (matcher re) s 0 with
-  | none => simp
+  | none => cases msg <;> simp
   | some mo =>
     simp only [Option.map_some, pyRemove]
     split <;> (try split) <;> rfl
